@@ -78,6 +78,7 @@ func main() {
 	verif := flag.String("verif", "/verif", "verif root (mutants, seeded)")
 	verbose := flag.Bool("v", false, "print every obligation")
 	overlayFlag := flag.String("overlay", "", "comma-separated real=replacement file pairs (debugging)")
+	patchFlag := flag.String("patch", "", "unified diff applied in memory before analysing (trying a change without touching /repo)")
 	flag.Parse()
 	if *tier != "quick" && *tier != "thorough" {
 		fmt.Println("bad tier")
@@ -124,6 +125,14 @@ func main() {
 			a, _ := filepath.Abs(kv[0])
 			overlay[a] = b
 		}
+	}
+	if *patchFlag != "" {
+		ov, err := overlayFromPatch(absRepo, *patchFlag)
+		if err != nil {
+			fmt.Println("patch:", err)
+			os.Exit(2)
+		}
+		overlay = ov
 	}
 	t0 := time.Now()
 	p, err := Load(absRepo, overlay)
